@@ -20,7 +20,6 @@ import Golib.FailClosed.ValueFuel
 import Golib.FailClosed.ValueTotal
 import Golib.FailClosed.Tail
 import Golib.FailClosed.Findings
-import Golib.FailClosed.KnownSites
 import Golib.FailClosed.PackA
 
 namespace C04
@@ -200,28 +199,7 @@ theorem finding_D02_array :
     ¬ A.cost (decVA false 3) [73, 127, 255] ≤ 1280 * 3 := by
   rw [d02_textArray_unguarded]; decide
 
-/-! ## known finding (recorded, not repaired): `pack.ReadShortArray(din, sz)` reached from
-    `CounterPack1.readTxcallerPOidMeter` with `sz` = the decoded meter count
-
-    Full statement (false for the code as it is):
-      `∃ c, ∀ bs, A.cost readPOidMeters bs ≤ c * bs.length`.
-    What holds is the bound relative to a bound on the count field: -/
-
-theorem alloc_bounded_poid_partial (B sz : Nat) (h : sz ≤ B) (k : Nat) (bs : Bytes) :
-    A.cost (poidMeters sz k) bs ≤ (1 + 2 * B) * bs.length :=
-  (poidMeters_paid_partial B sz h k).bounded bs
-
-/-- witness: meter count 2^32 and one 7-byte meter — 8 GiB for a 16-byte section -/
-theorem finding_D02_poid :
-    ¬ A.cost readPOidMeters [8, 0, 0, 0, 1, 0, 0, 0, 0, 0, 0, 0, 0, 0, 0, 0] ≤ 1000000 * 16 := by
-  rw [poid_witness]; decide
-
 /-! ## non-vacuity -/
-
-/-- the partial theorem applies to honest inputs: 3 meters, the first array holding one short -/
-example : A.cost readPOidMeters [1, 3,  0, 0, 0, 0, 0, 1, 0, 5, 0,  0, 0, 0, 0, 0, 0, 0,  0, 0, 0, 0, 0, 0, 0] = 43 := by
-  decide +kernel
-
 
 /-- a nested value: its encoding decodes completely, so the prefix theorems apply to it -/
 example : (Value.decode (encV (.list [.int 5, .text [104, 105], .map [([107], .ai [1, -2])]]))).map
